@@ -29,6 +29,16 @@ def oracle_deadlock(Q):
 
 
 class DLSim(ciw.Simulation):
+    tie = 'native'
+
+    def find_next_active_node(self):
+        if self.tie == 'native':
+            return super().find_next_active_node()
+        m = min(nd.next_event_date for nd in self.active_nodes)
+        c = [nd for nd in self.active_nodes if nd.next_event_date == m]
+        if len(c) > 1: self.ties_seen = getattr(self, 'ties_seen', 0) + 1
+        return c[0] if self.tie == 'first' else c[-1]
+
     def event_and_return_nextnode(self, nd):
         self.nev += 1
         if self.nev > self.cap:
@@ -69,6 +79,7 @@ def make_spec(seed):
                 tracker=r.choice(['NaiveBlocking', 'MatrixBlocking', 'NodePopulation']), lattice=lattice,
                 disciplines=[r.choice(['FIFO', 'FIFO', 'LIFO', 'SIRO']) for _ in range(n)])
     spec['exact'] = r.choice([12, 20]) if r.random() < 0.12 else False
+    spec['tie'] = r.choice(['native', 'native', 'first', 'last']) if lattice else 'native'
     return spec
 
 
@@ -92,6 +103,7 @@ def worker(job, extra):
         N = build(spec)
         ciw.seed(seed)
         Q = DLSim(N, deadlock_detector=ciw.deadlock.StateDigraph(), tracker=getattr(ciw.trackers, spec['tracker'])(), **({'exact': spec['exact']} if spec.get('exact') else {}))
+        Q.tie = spec.get('tie', 'native')
         Q.nev = 0; Q.cap = cap; Q.log = []; Q.maxblocked = 0; Q.first = {Q.statetracker.hash_state(): 0.0}
         res['Q'] = Q
         Q.simulate_until_deadlock()
